@@ -14,6 +14,48 @@ CLAIMED = {
     "C19": {"text": "Alias constructors are proved to be exactly one call of the canonical constructor with the same arguments; ignore_na/element_wise/"
                     "n_failure_cases/raise_warning semantics of the pandas check back end are proved for all series and option values.",
             "note": COMMON_NOTE + "groupby(...).head(n) is axiomatised as an arbitrary sub-selection; user predicates are S-callbacks."},
+    "C02": {"text": "ErrorHandler.collect_error/collect_errors are proved (eager raises exactly the offered error and records nothing; lazy appends exactly one "
+                    "record), every collection loop is proved to offer each failing core result exactly once, in order, carrying the result's fields, the component "
+                    "loop loses and invents nothing, and the lazy/eager agreement follows as a lemma over those contracts. Failure-case cell exactness "
+                    "(reshape/consolidate pipelines) is not under contract.",
+            "note": COMMON_NOTE + "reshape_failure_cases / consolidate_failure_cases are opaque (pandas unstack/concat pipelines); SchemaErrors.__init__ is used through its contract."},
+    "C03": {"text": "Lineage obligations on the real bodies of DataFrameSchemaBackend.validate, ArraySchemaBackend.validate and SeriesSchema.validate: the object that is "
+                    "checked and returned is the result of the whole parser chain in order (each parser under its interface contract); drop_invalid_rows row algebra "
+                    "proved for pandas (all error counts, closed-form loop invariant) and polars (all frames, <= 3 errors). Idempotence of the individual parsers "
+                    "(library casts) is not decided.",
+            "note": COMMON_NOTE + "The parsers add_missing_columns/strict_filter_columns/set_defaults/coerce_dtype are replaced by interface contracts (return a derived table or raise "
+                    "SchemaError(s)); dtype coercion semantics are pandas/polars facts (C10)."},
+    "C04": {"text": "Ownership/frame obligations on every validate entry point of the pandas back end (container, array, column, index, series) and the polars API: with "
+                    "inplace=False no callee that writes in place ever receives the caller's object; container kind preserved (polars DataFrame/LazyFrame).",
+            "note": COMMON_NOTE + "S-lib mutator table (which library operations write their receiver) is assumed; MultiIndexBackend.validate is covered by the fix but not under contract."},
+    "C05": {"text": "Frame obligations (every attribute of every pre-existing schema object equals its entry value on every normal and exceptional exit) on the "
+                    "validate call graph of the pandas back end, including the mutate-then-revert idioms, for every component kind and every outcome of the component's validate.",
+            "note": COMMON_NOTE + "Serialisation / statistics / strategies / model operations of the property's history alphabet are covered by C12-C16's contracts, not here."},
+    "C06": {"text": "Exception-set obligations (only documented classes escape) and restore-on-exceptional-exit obligations with the user callback raising at a symbolic "
+                    "position k of each run_checks loop; call-site precondition of drop_invalid_rows; structural obligation that every SchemaError construction site "
+                    "uses a mapped reason code.",
+            "note": COMMON_NOTE + "Which exceptions library operations raise is declared per model; an undeclared library exception is outside the claim."},
+    "C07": {"text": "Decides the sufficient condition data-race freedom on pandera state: the validate call graph is re-verified with the strict frame (no write, not even "
+                    "a reverted one, to schema objects or module globals). The three writes that exist are refuted and listed as known findings with deterministic "
+                    "callback-gated two-thread replays; everything else is proved. Schedules themselves are not enumerated.",
+            "note": COMMON_NOTE + "pandas/polars/numpy are assumed thread-compatible on distinct data objects; liveness and deadlock are out of reach of contracts."},
+    "C08": {"text": "All polars built-in checks are proved against the same spec functions as their pandas twins, and for the 9 comparison/membership checks the REAL "
+                    "pandas and polars check back ends are executed side by side symbolically and proved to reach the same verdict for every column, bounds and "
+                    "ignore_na=True (ignore_na=False is refuted: known finding).",
+            "note": COMMON_NOTE + "polars expression semantics (Kleene logic, all() ignoring nulls) are axioms of pyvc/theories/polars_lite.py; twin container pipelines and parsed-output equality are not under contract."},
+    "C09": {"text": "DataType.check predicates over the live class lattice with symbolic widths, Engine.dtype resolution order for a generic engine (symbolic equivalents table), "
+                    "engine-specific check/dtype entry points, and an exhaustive structural closure over every registered key of the numpy/pandas/polars/pyspark engines.",
+            "note": COMMON_NOTE + "Parametrised constructors (time zones, units, categories, decimal precision) are bounded stand-ins (listed under bounded, not counted)."},
+    "C11": {"text": "pandas drop_invalid_rows: rows(result) == rows whose label no collected error reports, for any number of errors (closed-form invariant), values/order kept; "
+                    "polars: rows kept iff every row-aligned check output is true, for all frames and <= 3 errors; the call-site precondition (only row-attributable errors) "
+                    "is refuted and listed.",
+            "note": COMMON_NOTE + "MultiIndex label round trip through str/eval and reshape_failure_cases' 'index' column are not under contract."},
+    "C14": {"text": "Statistics inference, statistics->checks, schema construction and the check serialisation pipeline are proved over all in-quantifier dtypes; lemma: the inferred "
+                    "bounds admit the data and are attained.",
+            "note": COMMON_NOTE + "pd.api.types.infer_dtype answers, float rounding monotonicity and the YAML text leg are assumed / bounded (see notes/C14.md)."},
+    "C17": {"text": "For 27 signature shapes (arity <= 3 plus *rest/**kw, sync and async) the real decorator factories and wrappers are symbolically executed for all argument "
+                    "values, options and behaviours of schema.validate and the body: option forwarding, gate, transparency, designation independence.",
+            "note": COMMON_NOTE + "The family of signature shapes is a bound of this claim; inspect/typing run natively on real function objects (see notes/C17.md)."},
     "C20": {"text": "pandas subsample is proved against the position-set spec (rows == head U tail U pick, each once, values and order kept) for all "
                     "frames/series, all h,t,n and random states under the unique-index precondition; the any-index form is refuted by the verifier and listed as a "
                     "known finding with native replay. The wiring of subsample vs whole object into every core check is proved for the container and array back ends.",
